@@ -1080,33 +1080,37 @@ package vanguard
 //@   requires headers != nil
 //@   ensures[C02] hdr(headers, "Content-Type") == contentTypePrefix + meta.codec
 //@   ensures[C02] meta.compression != "" ==> hdr(headers, "Grpc-Encoding") == meta.compression
-//@   ensures[C02] meta.compression == "" ==> hdrHas(headers, "Grpc-Encoding") == old(hdrHas(headers, "Grpc-Encoding"))
+//@   ensures[C02] meta.compression == "" ==> !hdrHas(headers, "Grpc-Encoding")
+//@   ensures[C02] len(meta.acceptCompression) == 0 ==> !hdrHas(headers, "Grpc-Accept-Encoding")
 //@   ensures[C12] meta.hasTimeout ==> hdrHas(headers, "Grpc-Timeout")
-//@   ensures[C12] !meta.hasTimeout ==> hdrHas(headers, "Grpc-Timeout") == old(hdrHas(headers, "Grpc-Timeout"))
+//@   ensures[C12,C02] !meta.hasTimeout ==> !hdrHas(headers, "Grpc-Timeout")
 //@   ensures[C05] hdrSameExcept(headers, "Content-Type", "Grpc-Encoding", "Grpc-Accept-Encoding", "Grpc-Timeout")
 //@   modifies mapobj(headers), #LIB0
 //@ func (grpcServerProtocol).addProtocolRequestHeaders
 //@   requires headers != nil
 //@   ensures[C02] hdr(headers, "Content-Type") == "application/grpc+" + meta.codec && hdr(headers, "Te") == "trailers"
 //@   ensures[C02] meta.compression != "" ==> hdr(headers, "Grpc-Encoding") == meta.compression
-//@   ensures[C02] meta.compression == "" ==> hdrHas(headers, "Grpc-Encoding") == old(hdrHas(headers, "Grpc-Encoding"))
-//@   ensures[C12] !meta.hasTimeout ==> hdrHas(headers, "Grpc-Timeout") == old(hdrHas(headers, "Grpc-Timeout"))
+//@   ensures[C02] meta.compression == "" ==> !hdrHas(headers, "Grpc-Encoding")
+//@   ensures[C02] len(meta.acceptCompression) == 0 ==> !hdrHas(headers, "Grpc-Accept-Encoding")
+//@   ensures[C12,C02] !meta.hasTimeout ==> !hdrHas(headers, "Grpc-Timeout")
 //@   ensures[C05] hdrSameExcept(headers, "Content-Type", "Te", "Grpc-Encoding", "Grpc-Accept-Encoding", "Grpc-Timeout")
 //@   modifies mapobj(headers), #LIB0
 //@ func (grpcWebServerProtocol).addProtocolRequestHeaders
 //@   requires headers != nil
 //@   ensures[C02] hdr(headers, "Content-Type") == "application/grpc-web+" + meta.codec
 //@   ensures[C02] meta.compression != "" ==> hdr(headers, "Grpc-Encoding") == meta.compression
-//@   ensures[C02] meta.compression == "" ==> hdrHas(headers, "Grpc-Encoding") == old(hdrHas(headers, "Grpc-Encoding"))
-//@   ensures[C12] !meta.hasTimeout ==> hdrHas(headers, "Grpc-Timeout") == old(hdrHas(headers, "Grpc-Timeout"))
+//@   ensures[C02] meta.compression == "" ==> !hdrHas(headers, "Grpc-Encoding")
+//@   ensures[C02] len(meta.acceptCompression) == 0 ==> !hdrHas(headers, "Grpc-Accept-Encoding")
+//@   ensures[C12,C02] !meta.hasTimeout ==> !hdrHas(headers, "Grpc-Timeout")
 //@   ensures[C05] hdrSameExcept(headers, "Content-Type", "Grpc-Encoding", "Grpc-Accept-Encoding", "Grpc-Timeout")
 //@   modifies mapobj(headers), #LIB0
 //@ func (connectUnaryServerProtocol).addProtocolRequestHeaders
 //@   requires headers != nil
 //@   ensures[C02] hdr(headers, "Content-Type") == "application/" + meta.codec && hdr(headers, "Connect-Protocol-Version") == "1"
 //@   ensures[C02] meta.compression != "" ==> hdr(headers, "Content-Encoding") == meta.compression
-//@   ensures[C02] meta.compression == "" ==> hdrHas(headers, "Content-Encoding") == old(hdrHas(headers, "Content-Encoding"))
-//@   ensures[C12] !meta.hasTimeout ==> hdrHas(headers, "Connect-Timeout-Ms") == old(hdrHas(headers, "Connect-Timeout-Ms"))
+//@   ensures[C02] meta.compression == "" ==> !hdrHas(headers, "Content-Encoding")
+//@   ensures[C02] len(meta.acceptCompression) == 0 ==> !hdrHas(headers, "Accept-Encoding")
+//@   ensures[C12,C02] !meta.hasTimeout ==> !hdrHas(headers, "Connect-Timeout-Ms")
 //@   ensures[C12] meta.hasTimeout && meta.timeout >= 0 ==> hdrCount(headers, "Connect-Timeout-Ms") == 1 && isdigits(hdr(headers, "Connect-Timeout-Ms")) && decval(hdr(headers, "Connect-Timeout-Ms")) * 1000000 <= meta.timeout
 //@   ensures[C12] meta.hasTimeout && meta.timeout >= 0 && meta.timeout < 10000000000 * 1000000 ==> meta.timeout - decval(hdr(headers, "Connect-Timeout-Ms")) * 1000000 < 1000000
 //@   ensures[C05] hdrSameExcept(headers, "Content-Type", "Content-Encoding", "Accept-Encoding", "Connect-Protocol-Version", "Connect-Timeout-Ms")
@@ -1115,8 +1119,9 @@ package vanguard
 //@   requires headers != nil
 //@   ensures[C02] hdr(headers, "Content-Type") == "application/connect+" + meta.codec
 //@   ensures[C02] meta.compression != "" ==> hdr(headers, "Connect-Content-Encoding") == meta.compression
-//@   ensures[C02] meta.compression == "" ==> hdrHas(headers, "Connect-Content-Encoding") == old(hdrHas(headers, "Connect-Content-Encoding"))
-//@   ensures[C12] !meta.hasTimeout ==> hdrHas(headers, "Connect-Timeout-Ms") == old(hdrHas(headers, "Connect-Timeout-Ms"))
+//@   ensures[C02] meta.compression == "" ==> !hdrHas(headers, "Connect-Content-Encoding")
+//@   ensures[C02] len(meta.acceptCompression) == 0 ==> !hdrHas(headers, "Connect-Accept-Encoding")
+//@   ensures[C12,C02] !meta.hasTimeout ==> !hdrHas(headers, "Connect-Timeout-Ms")
 //@   ensures[C12] meta.hasTimeout && meta.timeout >= 0 ==> hdrCount(headers, "Connect-Timeout-Ms") == 1 && isdigits(hdr(headers, "Connect-Timeout-Ms")) && decval(hdr(headers, "Connect-Timeout-Ms")) * 1000000 <= meta.timeout
 //@   ensures[C12] meta.hasTimeout && meta.timeout >= 0 && meta.timeout < 10000000000 * 1000000 ==> meta.timeout - decval(hdr(headers, "Connect-Timeout-Ms")) * 1000000 < 1000000
 //@   ensures[C05] hdrSameExcept(headers, "Content-Type", "Connect-Content-Encoding", "Connect-Accept-Encoding", "Connect-Timeout-Ms")
@@ -1125,8 +1130,9 @@ package vanguard
 //@   requires headers != nil
 //@   ensures[C02] hdr(headers, "Content-Type") == "application/" + meta.codec
 //@   ensures[C02] meta.compression != "" ==> hdr(headers, "Content-Encoding") == meta.compression
-//@   ensures[C02] meta.compression == "" ==> hdrHas(headers, "Content-Encoding") == old(hdrHas(headers, "Content-Encoding"))
-//@   ensures[C12] !meta.hasTimeout ==> hdrHas(headers, "X-Server-Timeout") == old(hdrHas(headers, "X-Server-Timeout"))
+//@   ensures[C02] meta.compression == "" ==> !hdrHas(headers, "Content-Encoding")
+//@   ensures[C02] len(meta.acceptCompression) == 0 ==> !hdrHas(headers, "Accept-Encoding")
+//@   ensures[C12,C02] !meta.hasTimeout ==> !hdrHas(headers, "X-Server-Timeout")
 //@   ensures[C12] meta.hasTimeout ==> hdrCount(headers, "X-Server-Timeout") == 1 && hdr(headers, "X-Server-Timeout") != ""
 //@   ensures[C05] hdrSameExcept(headers, "Content-Type", "Content-Encoding", "Accept-Encoding", "X-Server-Timeout")
 //@   modifies mapobj(headers), #LIB0
